@@ -491,10 +491,162 @@ fn drive(mode: &str, dest: &Path, loc: &str, outcome: &str, st: &Rc<RefCell<Prob
     }
 }
 
+/// a history: several writers of ONE builder in one sandbox, calls in any order (tokens: see Drv/Path.lean)
+fn run_seq(root_s: &str, form: &str, toks: &str, o: &mut Oracle) -> String {
+    let root = PathBuf::from(root_s);
+    PRISTINE.with(|p| *p.borrow_mut() = None);
+    wipe_jail();
+    make_sandbox(&root);
+    let (cwd, dest): (Option<PathBuf>, PathBuf) = match form {
+        "abs" => (None, root.join("dest")),
+        "slash" => (None, PathBuf::from(format!("{}/dest/", root_s))),
+        "dots" => (None, PathBuf::from(format!("{}/outer/../dest/.", root_s))),
+        "rel" => (Some(root.clone()), PathBuf::from("dest")),
+        "reldot" => (Some(root.join("outer")), PathBuf::from("../dest")),
+        _ => return "bad-op".to_string(),
+    };
+    if let Some(c) = &cwd {
+        std::env::set_current_dir(c).unwrap();
+    }
+    let builder = match ObjectWriterFSBuilder::new(&dest, true) {
+        Ok(b) => b,
+        Err(_) => {
+            std::env::set_current_dir("/").ok();
+            return "BUILDER-ERR".to_string();
+        }
+    };
+    let now = SystemTime::now();
+    let endpoint = UDPEndpoint::new(None, "224.0.0.1".to_owned(), 5000);
+    let rootb = root_s.as_bytes();
+    let mut writers: Vec<Box<dyn ObjectWriter>> = Vec::new();
+    let mut out: Vec<String> = Vec::new();
+    let mut result: Option<String> = None;
+    for tok in toks.split(',') {
+        if let Some(rest) = tok.strip_prefix("n=") {
+            let parts: Vec<&str> = rest.split('=').collect();
+            let loc = if parts.len() == 2 { unhex(parts[0]).and_then(|b| String::from_utf8(b).ok()) } else { None };
+            let Some(loc) = loc else {
+                result = Some("bad-op".to_string());
+                break;
+            };
+            if url_ans(&loc) != parts[1] {
+                result = Some(format!("bad-ans real={}", url_ans(&loc)));
+                break;
+            }
+            let meta = ObjectMetadata {
+                content_location: loc,
+                content_length: Some(0),
+                transfer_length: Some(0),
+                content_type: None,
+                cache_control: ObjectCacheControl::NoCache,
+                groups: None,
+                md5: None,
+                optel_propagator: None,
+                oti: None,
+                cenc: None,
+                e_tag: None,
+            };
+            match builder.new_object_writer(&endpoint, &1, &(writers.len() as u128), &meta, now) {
+                ObjectWriterBuilderResult::StoreObject(w) => writers.push(w),
+                _ => {
+                    result = Some("NOWRITER".to_string());
+                    break;
+                }
+            }
+            out.push("n".to_string());
+            continue;
+        }
+        let (idx, call) = tok.split_at(tok.len().saturating_sub(1));
+        let Some(w) = idx.parse::<usize>().ok().and_then(|i| writers.get(i)) else {
+            result = Some("bad-op".to_string());
+            break;
+        };
+        let before = snap_all();
+        let tag = match call {
+            "o" => {
+                if w.open(now).is_ok() {
+                    "ok"
+                } else {
+                    "ERR"
+                }
+            }
+            "w" => {
+                w.write(0, &[], now).ok();
+                "-"
+            }
+            "c" => {
+                w.complete(now);
+                "-"
+            }
+            "e" => {
+                w.error(now);
+                "-"
+            }
+            "i" => {
+                w.interrupted(now);
+                "-"
+            }
+            _ => {
+                result = Some("bad-op".to_string());
+                break;
+            }
+        };
+        let after = snap_all();
+        let d = diff(&before, &after);
+        for (k, p) in d.iter() {
+            let shown = show_path(rootb, p);
+            if !shown.starts_with("dest/") {
+                let class = match *k {
+                    "+d" => "escape-mkdir",
+                    "+f" => "escape-create",
+                    "~f" => "escape-truncate",
+                    "-f" | "-d" => "escape-remove",
+                    _ => "escape-other",
+                };
+                o.fail(class, &format!("history {}: call {} : {} {} is outside dest/", toks, tok, k, shown));
+            }
+        }
+        // a file that is empty before and after shows no truncation in (length, mtime) reliably: only report
+        // `~f` when the length changed (the model does the same, see Drv/Path.lean)
+        let d: Vec<(&'static str, Vec<u8>)> = d
+            .into_iter()
+            .filter(|(k, p)| {
+                *k != "~f" || match (before.get(p), after.get(p)) {
+                    (Some(Node::File(a, _)), Some(Node::File(b, _))) => a != b,
+                    _ => true,
+                }
+            })
+            .collect();
+        out.push(format!("{}[{}]", tag, show_diff(rootb, &d)));
+    }
+    drop(writers);
+    std::env::set_current_dir("/").ok();
+    result.unwrap_or_else(|| out.join(";"))
+}
+
 /// execute one op line (inside the jail): observation + oracle failures
 fn exec_in_jail(op: &str) -> (String, Vec<(String, String)>) {
     let bad = |s: &str| (s.to_string(), Vec::new());
     let t: Vec<&str> = op.split(' ').collect();
+    if t.len() == 5 && t[0] == "path" && t[1] == "seq" {
+        if !root_ok(t[2]) {
+            return bad("bad-op");
+        }
+        let (r, f, toks) = (t[2].to_string(), t[3].to_string(), t[4].to_string());
+        let res = guarded(move || {
+            let mut oo = Oracle::default();
+            let s = run_seq(&r, &f, &toks, &mut oo);
+            (s, oo.fails)
+        });
+        return match res {
+            Ok(x) => x,
+            Err(at) => {
+                std::env::set_current_dir("/").ok();
+                PRISTINE.with(|p| *p.borrow_mut() = None);
+                ("PANIC".to_string(), vec![("writer-panic".to_string(), format!("panic at {} in history {}", at, t[4]))])
+            }
+        };
+    }
     if t.len() != 7 || t[0] != "path" || !(t[1] == "run" || t[1] == "sess") {
         return bad("bad-op");
     }
@@ -706,6 +858,13 @@ fn execute(jobs: &[Job], workers: usize) -> Vec<(String, Vec<(String, String)>)>
     execute_ops(&ops, workers)
 }
 
+/// deterministic pseudo-random number for the k-th history, j-th draw (independent of the main PRNG stream so that
+/// adding this phase did not change the other phases' cases)
+fn rng_hist(seed: u64, k: usize, j: usize) -> usize {
+    let mut r = Rng::new(seed ^ ((k as u64) << 20) ^ (j as u64).wrapping_mul(0x9E37_79B9));
+    r.next() as usize
+}
+
 fn escape_attempt(loc: &str) -> bool {
     let mut clps = vec![loc.to_string()];
     if let Ok(u) = url::Url::parse(loc) {
@@ -746,7 +905,7 @@ pub fn run(ctx: &mut Ctx, _eng: &mut dyn Engine) {
     ctx.rule = format!(
         "every Content-Location = prefix (9 kinds of the property text) + up to {} segments from the 8 kinds, enumerated exhaustively, x \
          {{complete, error, interrupted}} (depth 5: one of the three per location, in rotation), dest spelled abs|slash|dots in rotation; structured escape attempts (prefix x lead x 0..5 climbs of 4 spellings x 8 targets); {} seeded random strings over a larger token set; \
-         a relative-dest phase (chdir, single thread); {} full Sender->Receiver sessions; each against the real ObjectWriterFSBuilder in a \
+         histories (2 writers x 6 colliding/nested locations x every sequence of 3 (quick) / 4 (thorough) calls from {{open, complete, error}} on either writer, plus seeded longer histories with up to 3 writers, 20 locations, all five calls, any order; all five dest spellings); a relative-dest phase; {} full Sender->Receiver sessions; each against the real ObjectWriterFSBuilder in a \
          fresh sandbox, tree snapshot before / after open / at the end vs the Lean model's predicted effects; oracle = every effect strictly \
          below dest/; non-trivial = the op had a filesystem effect or the location has a non-Normal component after the strip \
          (distinct by mode, dest spelling, location, outcome)",
@@ -834,6 +993,74 @@ pub fn run(ctx: &mut Ctx, _eng: &mut dyn Engine) {
     }
     let res = execute(&jobs, workers);
     record(ctx, &jobs, res);
+
+    // 1c. histories: several writers of one builder in one sandbox, colliding / nested locations, calls in any
+    //     order (protocol-conforming or not)
+    ctx.case("histories");
+    let seq_len = if ctx.tier_thorough { 4 } else { 3 };
+    let n_hist_random = if ctx.tier_thorough { 25_000 } else { 2_500 };
+    let core = ["x", "x/y", "p/q", "p", "old.txt", "sub"];
+    let extra = [
+        "x", "x/y", "p/q", "p", "old.txt", "sub/in.txt", "sub", "x/", "../x", "file:///x", "a/b/c", "/x", "//x", "x/../y", "./x",
+        "a:../x", "http://h/p/q", "x/y/z", "sub/../../outer/canary.txt", "",
+    ];
+    let calls6 = ["0o", "0c", "0e", "1o", "1c", "1e"];
+    let all_forms = ["abs", "slash", "dots", "rel", "reldot"];
+    let newtok = |loc: &str| format!("n={}={}", hex(loc.as_bytes()), url_ans(loc));
+    let mut hops: Vec<String> = Vec::new();
+    let mut k = 0usize;
+    for la in core.iter() {
+        for lb in core.iter() {
+            let total = calls6.len().pow(seq_len as u32);
+            for code in 0..total {
+                let mut c = code;
+                let mut toks = vec![newtok(la), newtok(lb)];
+                for _ in 0..seq_len {
+                    toks.push(calls6[c % 6].to_string());
+                    c /= 6;
+                }
+                hops.push(format!("path seq {} {} {}", root_for(idx), all_forms[k % 5], toks.join(",")));
+                idx += 1;
+                k += 1;
+            }
+        }
+    }
+    for _ in 0..n_hist_random {
+        let nw = rng_hist(ctx.seed, k, 0) % 3 + 1;
+        let mut toks: Vec<String> = Vec::new();
+        let mut made = 0usize;
+        let len = 3 + rng_hist(ctx.seed, k, 1) % 9;
+        for j in 0..len {
+            let r = rng_hist(ctx.seed, k, 2 + j);
+            if made == 0 || (made < nw && r % 4 == 0) {
+                toks.push(newtok(extra[(r / 7) % extra.len()]));
+                made += 1;
+            } else {
+                let call = ["o", "o", "o", "w", "c", "e", "e", "i"][(r / 5) % 8];
+                toks.push(format!("{}{}", (r / 64) % made, call));
+            }
+        }
+        hops.push(format!("path seq {} {} {}", root_for(idx), all_forms[k % 5], toks.join(",")));
+        idx += 1;
+        k += 1;
+    }
+    let res = execute_ops(&hops, workers);
+    for (i, (op, (obs, fails))) in hops.iter().zip(res.into_iter()).enumerate() {
+        ctx.op(op, &obs);
+        ctx.evaluations += 1;
+        for (c, d) in fails {
+            ctx.oracle_fail(&c, &format!("{} :: op `{}` -> `{}`", d, op, obs));
+        }
+        let effects = obs.matches(':').count();
+        ctx.count(&format!("history:effects={}", effects.min(4)));
+        if effects > 0 {
+            let toks = op.split(' ').nth(4).unwrap_or("");
+            ctx.nontrivial(&format!("seq {} {}", op.split(' ').nth(3).unwrap_or(""), toks));
+        }
+        if i == 100 || i == 7000 {
+            ctx.sample(format!("{} -> {}", op, obs));
+        }
+    }
 
     // 2. seeded random strings
     ctx.case("random");
